@@ -7,13 +7,21 @@ from common import Failure
 from props import _hist as H
 
 ID = "C09"
-GEN = []
+GEN = ["gen_histogram"]
 ALLOWED_AXIOMS = []
 MODEL_INDEPENDENT_OF_PROOFS = True
 TRUSTED = [
     "Coq 8.16.1 kernel + vm_compute (no native_compute)",
-    "hand model coq/Model/Histogram.v of sparkx.Histogram (constructor, add_value, scale_histogram, statistical_error, "
-    "make_density, geometry accessors), tied to the code by this run's correspondence only",
+    "translator tools/py2coq/gen_histogram.py (Python ast, fail-closed): turns the CURRENT bodies of Histogram.__init__ (tuple and list "
+    "branch), add_value, scale_histogram, statistical_error, make_density, bin_centers/bin_width/bin_bounds_left/right/bin_boundaries/"
+    "histogram into Gallina over the model's state (Gen/GenHistogram.v); it skips, as statements without effect on the modelled state, the "
+    "`if self.<attr> is None: raise TypeError` guards, warning texts and warnings.warn",
+    "runtime vocabulary coq/Lib/HistRt.v: one Coq function per accepted Python/numpy construct (np.digitize right=False, a[-1, j] += w, "
+    "a[-1] *= x, np.zeros/ones/linspace/sqrt/sum, element-wise row arithmetic, negative-index wrap-around) with the list semantics of "
+    "Model/Histogram.v; Python ints are Z",
+    "hand model coq/Model/Histogram.v: its functions init_tuple, init_list, add_value, scale_histogram, statistical_error, make_density, "
+    "widths/centers/bounds are PROVED EQUAL (C09_source_*) to the regenerated functions; in addition the model is run against the real "
+    "code on every run (correspondence)",
     "np.digitize as its documented list semantics (number of edges <= v on non-decreasing edges; mirrored on non-increasing edges; ValueError otherwise)",
     "oracles: usqrt = np.sqrt (no law assumed), ulinspace = np.linspace (the values numpy returns are passed into the model and compared with lo+i(hi-lo)/n)",
     "float rounding is not modelled: values are exact rationals (Qc); NaN and +-inf are one non-finite cell value",
@@ -21,7 +29,11 @@ TRUSTED = [
 ASSUMPTIONS = [
     "a history ends at the first exception (the state after a raised exception is not modelled; a NaN inside a weight LIST is "
     "rejected only after the preceding elements were added - observed on the real code, not part of the property text)",
-    "values/weights/factors are scalars or 1-D lists/ndarrays of floats",
+    "values/weights/factors are scalars or 1-D lists/ndarrays of floats (the recursive add_value calls on list elements are tied by "
+    "unrolling the translated body twice: elements of a 1-D list are numbers)",
+    "the source equalities of add_value, statistical_error, make_density hold for states with at least one bin edge / a 2-D error_ array "
+    "(consequences of the shape invariant of C10); the dispatch `isinstance(bin_boundaries, tuple) and len(..) == 3` / `(list, np.ndarray)` "
+    "of the constructor is pinned textually by the translator (the two branches are separate model functions)",
 ]
 
 
@@ -217,6 +229,8 @@ def correspondence(ctx, model_ok=True):
     if os.path.isdir(corpus):
         for fn in sorted(os.listdir(corpus)):
             cases.append(json.load(open(os.path.join(corpus, fn)))["case"])
+    cases += probes()
+    n += len(cases)
     while len(cases) < n:
         cases.append(gen_case(ctx.rng))
     gots = [H.run_impl(c, ctx.work) for c in cases]
@@ -270,11 +284,43 @@ def correspondence(ctx, model_ok=True):
     return out
 
 
+def probes():
+    """targeted cases for the constants / comparisons / branches that the translator reads from the source: every edge as a value
+    (first and last included), just outside, scalar / list / ndarray dispatch, weights None / 0 / list, bin_index arithmetic at both
+    ends, scaling by scalar and per-bin list (raw counts untouched), statistical_error, make_density on unequal widths, uniform tuples"""
+    out = []
+    inits = [{"kind": "list", "edges": [0.0, 1.0, 3.0, 3.5]}, {"kind": "tuple", "lo": -1.0, "hi": 1.0, "n": 4},
+             {"kind": "list", "edges": [-2.0, -1.5], "np": True}, {"kind": "tuple", "lo": 0, "hi": 3, "n": 3}]
+    for init in inits:
+        e = H.edges_of(init)
+        nb = len(e) - 1
+        allv = list(e) + [e[0] - 0.5, e[-1] + 0.5, (e[0] + e[1]) / 2]
+        ws = [float(i + 1) for i in range(len(allv))]
+        out.append({"init": init, "ops": [{"op": "fill", "v": allv}], "write": None})
+        out.append({"init": init, "ops": [{"op": "fill", "v": allv, "w": ws}], "write": None})
+        out.append({"init": init, "ops": [{"op": "fill", "v": allv, "w": ws, "np": True}, {"op": "scale", "s": 2.0},
+                                           {"op": "fill", "v": e[0]}, {"op": "stat_err"}], "write": None})
+        out.append({"init": init, "ops": [{"op": "fill", "v": x} for x in allv], "write": None})
+        out.append({"init": init, "ops": [{"op": "fill", "v": x, "w": w} for x, w in zip(allv, [2.0, 0.0, 0, 0.5, 3.0, 1.5, 0.25] * 2)], "write": None})
+        out.append({"init": init, "ops": [{"op": "fill", "v": list(e[:-1])}, {"op": "scale", "s": [float(i + 2) for i in range(nb)]},
+                                           {"op": "fill", "v": e[-2], "w": 4.0}, {"op": "scale", "s": 0.5}], "write": None})
+        out.append({"init": init, "ops": [{"op": "fill", "v": list(e[:-1]) + [e[0]], "w": [float(i + 1) for i in range(nb + 1)]},
+                                           {"op": "density"}], "write": None})
+        out.append({"init": init, "ops": [{"op": "fill", "v": e[0]}, {"op": "add_hist"}, {"op": "fill", "v": [e[-2], e[-2]]},
+                                           {"op": "stat_err"}, {"op": "scale", "s": 3}, {"op": "density"}], "write": None})
+        out.append({"init": init, "ops": [{"op": "fill", "v": [e[0], "nan"]}], "write": None})
+        out.append({"init": init, "ops": [{"op": "fill", "v": e[0], "w": [1.0]}], "write": None})
+        out.append({"init": init, "ops": [{"op": "fill", "v": [e[0]], "w": 2.0}], "write": None})
+        out.append({"init": init, "ops": [{"op": "scale", "s": -1.0}], "write": None})
+    return out
+
+
 def search(ctx):
     found, n = [], 0
     budget = 300 if ctx.quick else 3000
-    for _ in range(budget):
-        c = gen_case(ctx.rng, maxops=6)
+    pool = probes()
+    for k in range(budget + len(pool)):
+        c = pool[k] if k < len(pool) else gen_case(ctx.rng, maxops=6)
         n += 1
         msg = oracle(c)
         if msg:
@@ -290,8 +336,16 @@ LEVEL_TEXT = ("Theorems (Coq, all edges / value and weight sequences / interleav
               "e_i <= v < e_i+1, each multiplied by the factors applied after it; raw counts ignore the factors; values outside "
               "[e_0,e_n) leave the state identical; NaN values give ValueError; centres/widths/bounds are (e_i+e_i+1)/2, e_i+1-e_i, e_i, "
               "e_i+1; exact uniform edges are lo+i(hi-lo)/n and strictly increasing; statistical_error is sqrt of the contents; after "
-              "make_density sum content_i*width_i = 1. The hand model is run against the real code on every run.")
-LEVEL_NOTE = ("Trusted: Coq kernel/vm_compute; hand model Model/Histogram.v validated by correspondence only; np.digitize as its documented "
-              "list semantics; exact rationals instead of IEEE rounding; np.sqrt / np.linspace as oracles (the uniform-edge theorem is about "
-              "the exact formula, the correspondence compares np.linspace with it).")
-TECHNIQUE = "Coq proof by induction over the added values and over the operation history from a digitize specification on sorted edges; field reasoning on Qc for the density; vm_compute correspondence"
+              "make_density sum content_i*width_i = 1. Source tie (C09_source_*): the model's constructor (both argument forms), add_value, "
+              "scale_histogram, statistical_error, make_density and the geometry accessors are proved equal, for all arguments, to Gallina "
+              "functions regenerated from the current Histogram.py on every run. The hand model is also run against the real code on every run.")
+LEVEL_NOTE = ("Trusted: Coq kernel/vm_compute; translator gen_histogram.py and the numpy vocabulary Lib/HistRt.v (list semantics of the numpy "
+              "primitives, np.digitize as documented); exact rationals instead of IEEE rounding; np.sqrt / np.linspace as oracles (the "
+              "uniform-edge theorem is about the exact formula, the correspondence compares np.linspace with it). Regenerated and proved "
+              "equal: comparison operators and constants of the range/validity checks, the digitize call and `bin_index - 1`, weight "
+              "defaults and scalar/list dispatch, what scale_histogram multiplies, what make_density divides, the constructor's linspace "
+              "arguments and array initialisation. Not regenerated: the `is None` guards and warnings (skipped), the constructor's "
+              "tuple/list dispatch test (pinned textually), numpy itself.")
+TECHNIQUE = ("Coq proof by induction over the added values and over the operation history from a digitize specification on sorted edges; "
+             "field reasoning on Qc for the density; fail-closed source-to-Gallina translation of the method bodies with equality proofs "
+             "(unfolding, case analysis, induction over the fold of the element loop); vm_compute correspondence")
